@@ -129,6 +129,40 @@ def handleSeq (lcs ops impl : String) : String :=
     ";".intercalate st.out
   | _, _ => "bad-request"
 
+/-! Large pattern sets: `big <lc> <len> <alpha> <count> <k> <extras> <exceptions> <words> <impl>`.
+The pattern list is the family `famPattern len alpha k i`, `i < count` (one pattern per letter
+string of length `len` over the first `alpha` letters, a digit in every slot), followed by the
+explicit `<extras>`; then the exceptions. Only the specification is evaluated (on the real
+indices), with the pattern list restricted to the patterns whose letters occur in the word — the
+others cannot match (`matchesAt` needs the letters as a prefix of a suffix of the word). -/
+
+def famPattern (len alpha k i : Nat) : List Char :=
+  let letter := fun j => Char.ofNat (97 + (i / alpha ^ (len - 1 - j)) % alpha)
+  let dig := fun j => Char.ofNat (48 + (i * k + j * (k + 2) + i / 7) % 10)
+  (List.range len).flatMap (fun j => [dig j, letter j]) ++ [dig len]
+
+def handleBig (lcs : String) (len alpha count k : Nat) (extras excs ws impl : String) : String :=
+  let lc := if lcs = "t" then tableLc else asciiLc
+  let ps := (List.range count).map (famPattern len alpha k) ++ items extras
+  let es := items excs
+  let wsl := items ws
+  match (impl.splitOn ",").mapM parseIdx with
+  | none => "bad-request"
+  | some impls =>
+    if impls.length ≠ wsl.length then "bad-request" else
+    let per := (wsl.zip impls).map (fun (w, i) =>
+      match lowerWord lc w with
+      | none => "N:-::"
+      | some lw =>
+        let rel := relevant ps lw
+        let wf := rel.all wellFormed
+        let dup := hasDup ((rel.map parsePat).map Pat.key)
+        let sp := specIndices rel es lw
+        let v := if i = some sp then "1" else "0"
+        let x := if (findException es lw).isSome then "x" else ""
+        s!"{dots sp}:{v}:{x}:{if wf && !dup then "q" else ""}:{rel.length}")
+    ";".intercalate per
+
 def handle (line : String) : String :=
   match words line with
   | ["h", lcs, pm, pats, em, excs, ws, impl] =>
@@ -152,6 +186,10 @@ def handle (line : String) : String :=
       let pl := ps == plainPatterns && es == plainExceptions
       s!"wf={if wf then 1 else 0} dup={if dup then 1 else 0}{if pl then " plain=1" else ""} | {";".intercalate per}"
   | ["s", lcs, ops, impl] => handleSeq lcs ops impl
+  | ["big", lcs, len, alpha, count, k, extras, excs, ws, impl] =>
+    match len.toNat?, alpha.toNat?, count.toNat?, k.toNat? with
+    | some len, some alpha, some count, some k => handleBig lcs len alpha count k extras excs ws impl
+    | _, _, _, _ => "bad-request"
   | _ => "bad-request"
 
 end DrvC13
